@@ -2,7 +2,8 @@
 //! The independent definition is the Coq specification (Model/SighashSpec.v); the model line ends in a marker saying whether
 //! the specification agrees, and this side prints the marker that MUST come out (`s=` wherever consensus defines the query).
 //! Implementation-only predicates: digest = hash of the written pre-image, the convenience entry points agree with
-//! `taproot_sighash`, the repository's pinned vectors, and the SIGHASH_SINGLE out-of-range digest (finding F17).
+//! `taproot_sighash`, the repository's pinned vectors, and the SIGHASH_SINGLE out-of-range digest (the constant one itself;
+//! finding F17, repaired by b8dcccb, would return here as a violation).
 use crate::{c13::*, txgen::*, util::*, Case, Out};
 use elements::confidential::Value;
 use elements::encode::deserialize;
@@ -14,7 +15,6 @@ use rand::Rng;
 use rand_chacha::ChaCha20Rng;
 use std::panic::{catch_unwind, AssertUnwindSafe};
 
-pub const F17_KEY: &str = "F17-legacy-single-oob-hashed-one";
 
 fn tagged(tag: &[u8], msg: &[u8]) -> [u8; 32] {
     let t = sha256::Hash::hash(tag).to_byte_array();
@@ -88,7 +88,11 @@ pub fn eval(case: &str) -> Out {
         let pre = preimage(&tx, op, &spent, genesis);
         let mut marker = match spec_defined(&tx, op, &spent) { None => "s?", Some(true) => "s=", Some(false) => "s-" };
         // implementation-only predicates
-        if let (Some(d), Some(p)) = (digest.strip_prefix("ok:"), pre.strip_prefix("ok:")) {
+        // SIGHASH_SINGLE without a matching output: the digest IS the written constant, not its hash (checked below)
+        let single_oob = matches!(op, Op::Legacy(i, t, _) if (*t & 0x1f) == 3 && *i < tx.input.len() && *i >= tx.output.len());
+        if single_oob {
+            if digest != pre { fails.push(format!("legacy-single-oob-digest|query {} ({}): the digest {} is not the constant the writer emits ({})", k, show_op(op), digest, pre)); }
+        } else if let (Some(d), Some(p)) = (digest.strip_prefix("ok:"), pre.strip_prefix("ok:")) {
             let pb = if p == "-" { vec![] } else { unhex(p).unwrap_or_default() };
             let h = match op { Op::Legacy(..) | Op::Segwit(..) => sha256d::Hash::hash(&pb).to_byte_array(), _ => tagged(b"TapSighash/elements", &pb) };
             if hex(&h) != d { fails.push(format!("digest-not-hash-of-preimage|query {} ({}): digest {} but the written pre-image hashes to {}", k, show_op(op), d, hex(&h))); }
@@ -103,19 +107,15 @@ pub fn eval(case: &str) -> Out {
             Op::Legacy(i, t, _) if (*t & 0x1f) == 3 && *i < tx.input.len() && *i >= tx.output.len() => {
                 // consensus: the signature hash IS uint256 one
                 let one = format!("ok:01{}", "00".repeat(31));
-                if digest != one { marker = "s!"; fails.push(format!("{}|query {} ({}): SIGHASH_SINGLE without a matching output must sign the constant one, the library returns {}", F17_KEY, k, show_op(op), digest)); }
+                if digest != one { marker = "s!"; fails.push(format!("legacy-single-oob-digest|query {} ({}): SIGHASH_SINGLE without a matching output must sign the constant one, the library returns {}", k, show_op(op), digest)); }
             }
             _ => {}
-        }
-        // F11 (C13): One with ALL|ANYONECANPAY fails although the specification defines the digest
-        if let Some((_, t, pv)) = match op { Op::Taproot(i, t, p, _, _) => Some((*i, *t, p)), Op::Key(i, t, p) => Some((*i, *t, p)), Op::ScriptSpend(i, t, p, _) => Some((*i, *t, p)), _ => None } {
-            if t == 0x81 && !matches!(pv, Pv::All) && marker == "s=" && digest == "err:prevout_kind" { marker = "s!"; }
         }
         if let Some(e) = &expect { if let Some(x) = e.get(k) { if *x != "-" && digest != format!("ok:{}", x) {
             fails.push(format!("pinned-vector|query {} ({}): the repository's pinned digest is {}, the library returns {}", k, show_op(op), x, digest)); } } }
         answers.push(format!("{},{},{}", digest, pre, marker));
     }
-    let pred_fail = fails.iter().find(|f| !f.starts_with(F17_KEY)).or(fails.first()).cloned();
+    let pred_fail = fails.first().cloned();
     Out { result: answers.join(";"), pred_fail }
 }
 
